@@ -107,6 +107,26 @@ func createASTTypeExpr(pkg string, t types.Type, varPool *VarPool, imports map[s
 
 		return ast.NewIdent(name), nil
 	case *types.Alias:
+		if typeArgs := typ.TypeArgs(); typeArgs.Len() > 0 {
+			// An instance of a generic alias is spelled with its type arguments, like an instance of a generic type.
+			base, err := createASTTypeExpr(pkg, typ.Origin(), varPool, imports)
+			if err != nil {
+				return nil, fmt.Errorf("generic alias: %w", err)
+			}
+			args := make([]ast.Expr, 0, typeArgs.Len())
+			for i := 0; i < typeArgs.Len(); i++ {
+				arg, err := createASTTypeExpr(pkg, typeArgs.At(i), varPool, imports)
+				if err != nil {
+					return nil, fmt.Errorf("type argument %d: %w", i, err)
+				}
+				args = append(args, arg)
+			}
+			if len(args) == 1 {
+				return &ast.IndexExpr{X: base, Index: args[0]}, nil
+			}
+			return &ast.IndexListExpr{X: base, Indices: args}, nil
+		}
+
 		name := typ.Obj().Name()
 		if objPkg := typ.Obj().Pkg(); objPkg != nil && objPkg.Path() != pkg {
 			// For types from other packages, create a selector expression
